@@ -54,6 +54,10 @@ type Ctl struct {
 	Jitter int                        // stress: 1/Jitter of the gates yield the processor
 	old    map[int64]bool             // goroutines that existed before this world (left over from earlier cases)
 	names  map[int64]string           // every goroutine that was ever named (drivers, background), also after it ended
+	// stress: latency of the simulated bitcoind / elementsd / Electrum answers, so that code which
+	// releases a lock around an RPC exposes its window: usually up to LatUs microseconds, in LongPct
+	// percent of the calls up to LongMs milliseconds
+	LatUs, LongPct, LongMs int
 }
 
 func NewCtl(t int, out *ndj.Writer, det bool) *Ctl {
@@ -150,6 +154,14 @@ func (c *Ctl) whoami() string {
 // Gate is called by every simulated service BEFORE it answers.
 func (c *Ctl) Gate(name string) {
 	if !c.Det {
+		if c.LatUs > 0 && (strings.HasPrefix(name, "rpc.") || strings.HasPrefix(name, "el.")) {
+			d := time.Duration(rand.IntN(c.LatUs)+1) * time.Microsecond
+			if c.LongPct > 0 && rand.IntN(100) < c.LongPct {
+				d = time.Duration(rand.IntN(c.LongMs)+1) * time.Millisecond
+			}
+			time.Sleep(d)
+			return
+		}
 		if c.Jitter > 0 && rand.IntN(c.Jitter) == 0 {
 			if rand.IntN(4) == 0 {
 				time.Sleep(time.Duration(rand.IntN(200)) * time.Microsecond)
